@@ -454,6 +454,53 @@ def run(ck):
                 ck.fail("temperature:not-refused:derived", "a function whose data are those of %g K was added to one at %g K" %
                         ((Treq, Tst) if at_req else (Tst, Treq)), dict(inp, other=nm))
 
+    # ---- component lists: a component at another temperature is refused wherever it stands and whatever its correlation time ----
+    for tag, cls in classes[:1]:       # correlation functions (a spectral density does not depend on the temperature)
+        for order in (0, 1):
+            for shorter in (False, True):
+                kind = "OverdampedBrownian"
+                pa = KINDS[kind](20.0, rng, 300.0); pb = KINDS[kind](35.0, rng, 77.0)
+                pa["cortime"], pb["cortime"] = (100.0, 50.0) if shorter else (50.0, 100.0)
+                lst = [dict(pa), dict(pb)] if order == 0 else [dict(pb), dict(pa)]
+                inp = {"class": tag, "components": lst}
+                ck.case(("list-refusal", tag, order, shorter), nontrivial=True, cls=tag, types=1)
+                try:
+                    with energy_units("1/cm"):
+                        cls(ta, lst)
+                    ck.fail("temperature:not-refused:list:%s" % tag, "a component list naming two temperatures was accepted", inp, [c["T"] for c in lst])
+                except Exception as e:
+                    if short(e) != "err-temp":
+                        ck.fail("refused:list:other:%s" % tag, "component list refused for another reason: %s" % short(e), inp)
+    # ---- one parameter dictionary reused (and changed) by the script between constructions, in every unit incl. internal ones -------
+    for tag, cls in classes:
+        for units in ("int", "1/cm", "eV"):
+            kind = [k for k in tabs[tag]["kinds"] if k in KINDS][(len(tag) + len(units)) % 3]
+            base_p = conv_params(KINDS[kind](16.0, rng, 300.0), "1/cm", units or "int")
+            inp = {"class": tag, "units": units or "no context", "kind": kind}
+            ck.case(("shared-dict", tag, units), nontrivial=True, cls=tag, types=1)
+            try:
+                def mk_(pp):
+                    if units is None:
+                        return cls(ta, pp)
+                    with energy_units(units):
+                        return cls(ta, pp)
+                shared = dict(base_p)
+                a_ = mk_(shared); da, la = numpy.array(a_.data).copy(), float(a_.lamb)
+                shared["reorg"] = shared["reorg"] * 2.5
+                b_ = mk_(shared); db, lb = numpy.array(b_.data).copy(), float(b_.lamb)
+                shared["reorg"] = shared["reorg"] * 0.1
+                c_ = mk_(shared); dc, lc = numpy.array(c_.data).copy(), float(c_.lamb)
+                s1 = (a_ + b_) + c_
+                s2 = a_ + (b_ + c_)
+                cp = a_.copy(); cp += b_
+                for nm_, ob_, dw, lw in (("(a+b)+c", s1, da + db + dc, la + lb + lc), ("a+(b+c)", s2, da + db + dc, la + lb + lc), ("copy(a)+=b", cp, da + db, la + lb)):
+                    if relerr(ob_.data, dw) > 1e-10 or abs(ob_.lamb - lw) > 1e-10 * abs(lw):
+                        ck.fail("data:shared-dict:%s" % tag, "functions built one after another from ONE parameter dictionary that the script changed in "
+                                "between: %s is not the sum of the functions as they were built" % nm_, dict(inp, expression=nm_),
+                                [relerr(ob_.data, dw), float(ob_.lamb)], lw)
+            except Exception as e:
+                ck.fail("raises:shared-dict:%s" % tag, "raised %r" % (e,), inp)
+
     # ---- model -----------------------------------------------------------------------------------
     out = ck.drive(DRIVER, lines)
     if out is not None and len(out) != len(lines):
@@ -605,6 +652,29 @@ def run(ck):
             if abs(meas - decl) > 1e-3 * decl or abs(decl - lam) > 1e-12 * lam or not cons:
                 ck.fail("measure:%s" % kind, "reorganisation energy recovered from the data differs from the declared one",
                         {"params": p, "axis": [tl.length, tl.step]}, [meas, decl, cons], lam)
+            # a history on one object: measured, then a second analytic component is added in place (each of the three ways), measured again
+            try:
+                lam2 = rng.choice([10.0, 45.0, 120.0])
+                p2 = dict(p, reorg=lam2, cortime=rng.choice([40.0, 90.0]))
+                for how in ("add_to_data", "+=", "+"):
+                    with energy_units("1/cm"):
+                        f1 = CorrelationFunction(tl, dict(p)); g1 = CorrelationFunction(tl, dict(p2))
+                        f1.measure_reorganization_energy()
+                        if how == "add_to_data":
+                            f1.add_to_data(g1)
+                        elif how == "+=":
+                            f1 += g1
+                        else:
+                            f1 = f1 + g1
+                        decl2, meas2 = f1.get_reorganization_energy(), f1.measure_reorganization_energy()
+                        cons2 = f1.reorganization_energy_consistent()
+                    ck.case(("measure-after-add", kind, how, tau, lam, lam2), cls="cf")
+                    if abs(decl2 - (lam + lam2)) > 1e-9 * (lam + lam2) or abs(meas2 - decl2) > 1e-3 * decl2 or not cons2:
+                        ck.fail("measure:after:%s:%s" % (how, kind), "after an in-place addition (%s) of a second analytic function the reorganisation energy "
+                                "recovered from the data differs from the declared one" % how, {"params": [p, p2], "how": how},
+                                [meas2, decl2, cons2], lam + lam2)
+            except Exception as ex:
+                ck.fail("raises:measure:after-add:%s" % kind, "raised %r" % (ex,), {"params": p})
     tf = TimeAxis(0.0, ck.n(400, 1000), 2.0)
     for kind in [k for k in tabs["cf"]["kinds"] if k in KINDS]:
         for trial in range(ck.n(2, 8)):
